@@ -929,6 +929,20 @@ func (g *gen) fillPackage(pkg *Pkg, file, other *File, n int, isRoot bool) {
 			arg := in.arg
 			d.Fields = append(d.Fields, &Field{Name: fmt.Sprintf("Opt%d", i+1), Type: &TypeRef{K: TRef, Pkg: pkg.Path, Name: in.d.Name, Args: []*TypeRef{arg}}})
 		}
+		if o.NestedGenerics && rapid.Bool().Draw(t, "nestedGeneric") {
+			// directed: a second generic struct instantiated with an instantiation (Box[Gen[int64]], Box[Gen[IdX]]) and with a basic type
+			bd := &Decl{Kind: KGeneric, Name: g.freshName(pkg, "boxName", true), TParams: "T any", Fields: []*Field{{Name: "Val", Type: Basic("T")}, {Name: "Ok", Type: Basic("bool")}}}
+			other.Decls = append(other.Decls, bd)
+			g.types = append(g.types, &tinfo{pkg: pkg, d: bd, cat: "generic", exported: true})
+			box := func(arg *TypeRef) *TypeRef { return &TypeRef{K: TRef, Pkg: pkg.Path, Name: bd.Name, Args: []*TypeRef{arg}} }
+			in := insts[0]
+			d.Fields = append(d.Fields, &Field{Name: "Nested1", Type: box(&TypeRef{K: TRef, Pkg: pkg.Path, Name: in.d.Name, Args: []*TypeRef{in.arg}})})
+			if !g.o.gated("generic_basic_type_arg") {
+				d.Fields = append(d.Fields, &Field{Name: "Nested2", Type: box(&TypeRef{K: TRef, Pkg: pkg.Path, Name: in.d.Name, Args: []*TypeRef{Basic("int64")}})})
+				d.Fields = append(d.Fields, &Field{Name: "Nested3", Type: box(Basic("string"))})
+			}
+			o.class("feature:generic_instantiated_with_an_instantiation")
+		}
 		g.newDecl(pkg, file, d, &tinfo{cat: "struct"})
 		// the pseudo entries are not referable
 		var keep []*tinfo
